@@ -322,10 +322,10 @@ def flushM : M Unit := fun s =>
 
 /-- `tw.Write(b)` (what `io.WriteString(w, …)` and `fmt.Fprintf(w, …)` do on a trim writer) -/
 def writeM (b : Bytes) : M Unit := fun s =>
-  if s.tw.trim then .ret ((), { s with tw := { buf := s.tw.buf ++ trimLeftSpace b, trim := false } })
-  else if s.tw.buf.isEmpty then .ret ((), { s with tw := { buf := b, trim := false } })
+  let b' := if s.tw.trim then trimLeftSpace b else b
+  if s.tw.buf.isEmpty then .ret ((), { s with tw := { buf := b', trim := false } })
   else .call s.tw.buf fun
-    | .ok => .ret ((), { s with tw := { buf := b, trim := false } })
+    | .ok => .ret ((), { s with tw := { buf := b', trim := false } })
     | .failed _ => .fail (.plain .io)
 
 /-- `tw.TrimLeft()`: always one underlying call, possibly with zero bytes -/
